@@ -309,12 +309,20 @@ def run() -> int:
     for b in bad:
         what = f"are_d_separated({b['a']}, {b['b']} | {b['C']}) on nodes={b['nodes']} di={b['di']} bi={b['bi']}: {b['observed']}, m-separation says separated={b['expected_separated']} (native validation corpus)"
         rep.add_violation(Violation(PROP, [f"native {b['a']} {b['b']} {b['C']}"], what, {"property": PROP, **b}))
+    from .. import history_runs
+
+    cnt += history_runs.run(rep, PROP)
     rep.extra.update({"states": max(states, 1), "transitions": max(rep.obligations, 1), "traces_validated_against_impl": cnt})
     return rep.finish()
 
 
 def replay(payload: dict) -> int:
     from y0.dsl import Variable as V
+
+    if payload.get("kind") == "history":
+        from .. import history_runs
+
+        return history_runs.replay(PROP, payload)
 
     r = native_case([V(n) for n in payload["nodes"]], [(V(u), V(v)) for u, v in payload["di"]], [(V(u), V(v)) for u, v in payload["bi"]], V(payload["a"]), V(payload["b"]), [V(c) for c in payload["C"]])
     print(r)
